@@ -1179,6 +1179,7 @@ impl Bitboard {
 
         self.make(result);
         if !self.is_valid() {
+            self.unmake(result);
             return Err(MoveIsNotValid(result));
         }
         self.unmake(result);
@@ -1380,6 +1381,7 @@ impl Bitboard {
 
         self.make(result);
         if !self.is_valid() {
+            self.unmake(result);
             return Err(MoveIsNotValid(result));
         }
 
